@@ -768,6 +768,14 @@ def C19(ctx):
             q = with_region(p, t, a, b, sk)
             items.append({"prog": dsl.normalize(q), "cfg": {"iter_cap": 100000, "trace_cap": 20, "want_paths": True, "path_cap": 600}})
             meta.append((bi, "region", (t, a, b, sk)))
+        # skip_branch cannot be undone: called while exploration is already stopped, a later explore() must not restart it
+        for t in range(1, len(p["threads"]) + 1):
+            for variant, pre in (("skip", [dsl.I("skipb")]), ("stop-skip-explore", [dsl.I("stopx"), dsl.I("skipb"), dsl.I("explore")])):
+                q = copy.deepcopy(p)
+                q["threads"][t - 1][0:0] = pre
+                q["name"] = (p.get("name") or "") + f"+{variant}[{t}:0]"
+                items.append({"prog": dsl.normalize(q), "cfg": {"iter_cap": 100000, "trace_cap": 20, "want_paths": True, "path_cap": 600}})
+                meta.append((bi, "skipeq", (t, variant)))
         # expect_explicit_explore with explore() at each position of main
         for a in range(0, len(p["threads"][0]) + 1, max(1, len(p["threads"][0]) // 3)):
             q = copy.deepcopy(p)
@@ -788,6 +796,10 @@ def C19(ctx):
         ku, kr = loomrun.loom_keys(u), loomrun.loom_keys(r)
         for w in sorted(kr - ku):
             ctx.violation("region-not-subset", q, {"outcome": w}, {"kind": kind, "info": info})
+        if kind == "skipeq" and info[1] == "stop-skip-explore":
+            r0 = R[j - 1]                                  # the plain skip_branch variant at the same place
+            if r0["end"] == "ok" and (loomrun.loom_keys(r0) != kr or r0["iters"] != r["iters"]):
+                ctx.violation("skip-branch-undone", q, {"iters_skip": r0["iters"], "iters_stop_skip_explore": r["iters"]}, {"info": info})
         if kind == "explicit" and info == 0 and kr != ku:
             ctx.violation("explicit-explore-at-start-differs", q, {"missing": sorted(ku - kr)[:3]}, {})
         if len(kr) < len(ku):
